@@ -192,6 +192,54 @@ def build_inputs(seed, n):
                 if cand.year >= 1970:
                     out.append(('naive-gap-or-fold:' + zn, cand))
                     out.append(('naive-fold1:' + zn, cand.replace(fold=1)))
+    # the two readings of an ambiguous wall-clock time as AWARE datetimes
+    # that share one tzinfo object: they compare and hash equal (fold is
+    # ignored by == within one zone) yet denote instants an hour apart; they
+    # are encoded back to back, in both orders
+    for zn, trs in per_zone.items():
+        for t in trs[-(6 if n < 5000 else 60):]:
+            loc = _at(t, zobjs[zn]).replace(tzinfo=None)
+            for dm in (-45, -1, 0, 30):
+                cand = loc + datetime.timedelta(minutes=dm)
+                if cand.year < 1971:
+                    continue
+                a0 = cand.replace(tzinfo=zobjs[zn], fold=0)
+                a1 = cand.replace(tzinfo=zobjs[zn], fold=1)
+                pair = [a0, a1] if (t + dm) % 2 else [a1, a0]
+                out.append(('aware-fold-pair:' + zn, pair[0]))
+                out.append(('aware-fold-pair:' + zn, pair[1]))
+                out.append(('aware-fold-pair:' + zn, pair[0]))
+    # UTC offsets that are not whole minutes (legal since Python 3.7; real
+    # zones had them: Africa/Monrovia was -0:44:30 until 1972), down to
+    # microseconds
+    odd = [datetime.timedelta(seconds=-853), datetime.timedelta(seconds=37),
+           datetime.timedelta(hours=5, seconds=1),
+           datetime.timedelta(minutes=-44, seconds=-30),
+           datetime.timedelta(seconds=1), datetime.timedelta(seconds=-1),
+           datetime.timedelta(seconds=59), datetime.timedelta(seconds=3599),
+           datetime.timedelta(microseconds=1),
+           datetime.timedelta(microseconds=-1),
+           datetime.timedelta(hours=23, minutes=59, seconds=59,
+                              microseconds=999999),
+           datetime.timedelta(hours=-23, minutes=-59, seconds=-59),
+           datetime.timedelta(seconds=30, microseconds=500000)]
+    for t in instants[:: max(1, len(instants) // (60 if n < 5000 else 600))]:
+        base = refcodec.dt_from_seconds(t).replace(
+            microsecond=rnd.choice([0, 1, 499999, 500000, 999999]))
+        o = rnd.choice(odd)
+        try:
+            out.append(('aware-odd-offset', base.astimezone(
+                datetime.timezone(o))))
+        except (OverflowError, ValueError):
+            pass
+    try:
+        mon = zoneinfo.ZoneInfo('Africa/Monrovia')
+        for t in (86400 * 200, 86400 * 500 + 12345, 63072000 - 3600,
+                  63072000 + 3600):
+            out.append(('aware-odd-offset:zone',
+                        refcodec.dt_from_seconds(t).astimezone(mon)))
+    except Exception:
+        pass
     return [(k, v) for k, v in out
             if 0 <= refcodec.instant_seconds(v) < 2**32]
 
@@ -384,6 +432,7 @@ def gates(m, tier):
               'naive-utc-fields', 'struct_time', 'struct_time-local-fields',
               'naive-gap-or-fold', 'struct_time-from-localtime',
               'tzinfo-without-offset', 'struct_time-hour-24+',
+              'aware-fold-pair', 'aware-odd-offset',
               'struct_time-sec-61+'):
         if k not in m.sets.get('input_kinds', ()):
             out.append('input kind %s never exercised' % k)
